@@ -132,6 +132,10 @@ func (r *Rtmp2RtspRemuxer) FeedRtmpMsg(msg base.RtmpMsg) {
 			} else if msg.IsHevcKeySeqHeader() {
 				if msg.IsEnhanced() {
 					r.vps, r.sps, r.pps, err = hevc.ParseVpsSpsPpsFromEnhancedSeqHeader(msg.Payload)
+					// 返回的内存块指向msg.Payload，而函数返回后不能再持有msg的内存块，所以拷贝一份
+					r.vps = append([]byte(nil), r.vps...)
+					r.sps = append([]byte(nil), r.sps...)
+					r.pps = append([]byte(nil), r.pps...)
 				} else {
 					r.vps, r.sps, r.pps, err = hevc.ParseVpsSpsPpsFromSeqHeader(msg.Payload)
 				}
